@@ -50,6 +50,11 @@ def run(eng, ctx):
     T = eng.tables
     sh = shapes(eng)
     g = {"RTCM_DATA_FIELDS": T.fields}
+    # module-level compiled patterns of the helper module: NAME = re.compile("<constant pattern>")
+    for st_ in eng.repo.modules["rtcmhelpers"].tree.body:
+        if isinstance(st_, ast.Assign) and len(st_.targets) == 1 and isinstance(st_.targets[0], ast.Name) and isinstance(st_.value, ast.Call) and norm(st_.value.func) in ("re.compile", "compile") \
+                and len(st_.value.args) == 1 and isinstance(st_.value.args[0], ast.Constant) and isinstance(st_.value.args[0].value, str) and not st_.value.keywords:
+            g[st_.targets[0].id] = ("regex", st_.value.args[0].value)
     ctx.instance("generable name shapes", len(sh), 500)
     ctx.notes["exhaustive"] = True
     ctx.notes["shape_depths"] = {str(d): sum(1 for (_, dd) in sh if dd == d) for d in sorted({dd for _, dd in sh})}
@@ -72,7 +77,9 @@ def run(eng, ctx):
     # ------------------------------------------------------------ shared: the naming rule the shapes are derived from
     from . import decoder as DEC
 
-    DEC.naming(eng, ctx, "C03.D4", DEC.DecoderModel(eng))
+    _dm = DEC.DecoderModel(eng)
+    DEC.naming(eng, ctx, "C03.D4", _dm)
+    DEC.groups(eng, ctx, "C03.D6", "C03.D7", "C03.D8", _dm)  # the index values in the names come from the group routine's index stack
 
     # ------------------------------------------------------------ D0 memo tables
     ctx.rule("C19.D0", "a helper that keeps results in a module-level table keys it so that the key determines the result: no two generable names with different "
